@@ -112,7 +112,7 @@ class Rejection:
 RELAX_GROUPS = ['live', 'memo', 'value', 'acc']
 
 
-def validate_executions(execs, wd, relax=(), oracle=False, batch_lines=4000, jobs=12, timeout=900, max_rejections=8, extra_env=None):
+def validate_executions(execs, wd, relax=(), oracle=False, batch_lines=4000, jobs=12, timeout=3600, max_rejections=8, extra_env=None):
     """Concatenate executions (reset-separated) into batches, validate each batch with one TLC run.
     On rejection: attribute (which relax group makes the line acceptable), record, continue after
     the offending execution.  Returns (n_lines_validated, rejections)."""
